@@ -418,6 +418,11 @@ fn read_pdu(reader: &mut Reader<BufReader<File>>) -> Result<(Option<String>, Vec
                 signal_refs.sort_by_key(|s| s.0);
                 return Ok((description, signal_refs.into_iter().map(|v| v.1).collect()));
             }
+            Event::Eof => {
+                return Err(Error::FibexStructure(
+                    "unexpected end of file inside PDU".to_string(),
+                ));
+            }
             _ => {}
         }
     }
@@ -469,6 +474,11 @@ fn read_frame(reader: &mut Reader<BufReader<File>>) -> Result<FrameReadData, Err
                     message_info: frame_message_info,
                     pdu_refs: pdus.into_iter().map(|p| p.1).collect(),
                 });
+            }
+            Event::Eof => {
+                return Err(Error::FibexStructure(
+                    "unexpected end of file inside FRAME".to_string(),
+                ));
             }
             _ => {}
         }
